@@ -207,6 +207,14 @@ def run(tier):
                                   tail="INVARIANT LogicalCodesIntact\n"), "neg_chunked_unify_wraps_null", expect="LogicalCodesIntact", workers=1)
     ck.mc_bg("GBChunked", chk_cfg(rows=2, chunks=2, kernels='{"sum", "max"}', masks='{"none"}', reps='{"pointers"}', sorts="{TRUE}", distinct="FALSE", dev="d7",
                                   tail="INVARIANT TransformIsDef\n"), "neg_chunked_no_null_slot", expect="TransformIsDef", workers=1)
+    # TLAPS supplement: gather-by-index for ANY number of tasks and any completion order (inductive invariant, 30 obligations)
+    from .. import tlc as _tlc0
+    tp = _tlc0.tlaps_check("GBGatherProof", "C03")
+    if not tp["ok"]:
+        from ..core import Machinery
+        raise Machinery(f"tlapm did not prove GBGatherProof: {tp}")
+    ck.notes["tlaps"] = {"module": "spec/proofs/GBGatherProof.tla", "obligations_proved": tp["proved"], "wall_s": tp["wall"],
+                         "theorem": "Spec => []GatheredByIndex for an unbounded number of tasks (Init => Inv, Inv /\\ [Next]_vars => Inv', Inv => GatheredByIndex)"}
     rng = Rng(f"C03-{ck.seed}")
     sched.install()
     # (d) reductions over chunked keys, with the per-piece partials of hook H6
